@@ -1,4 +1,5 @@
 import TcheranVerif.Model.Game
+import TcheranVerif.Model.RayBase
 /-!
 # `Rules` — the specification: chess by the FIDE rules on a mailbox board
 
@@ -29,32 +30,12 @@ def ofGame (g : Game) : Pos :=
   { board := g.board.squares, player := g.player, rights := g.rights, ep := g.ep,
     halfmove := g.halfmove, plies := g.plies }
 
-def offset (s : Sq) (df dr : Int) : Option Sq := Sq.mk? (s.file + df) (s.rank + dr)
-
-/-- squares from `s` in direction `d`, nearest first, `s` excluded -/
-def ray (d : Dir) (s : Sq) : List Sq :=
-  let rec go : Nat → Sq → List Sq
-    | 0, _ => []
-    | n+1, c => match c.step d with
-      | none => []
-      | some t => t :: go n t
-  go 7 s
-
 /-- first occupied square along a list of squares -/
 def firstOccupied (b : RBoard) : List Sq → Option (Sq × Piece)
   | [] => none
   | t :: ts => match at' b t with
     | some pc => some (t, pc)
     | none => firstOccupied b ts
-
-def knightDeltas : List (Int × Int) :=
-  [(1, 2), (2, 1), (2, -1), (1, -2), (-1, -2), (-2, -1), (-2, 1), (-1, 2)]
-
-def kingDeltas : List (Int × Int) := Dir.all.map Dir.delta
-
-def fwd : Player → Int
-  | .white => 1
-  | .black => -1
 
 def isPiece (b : RBoard) (s : Option Sq) (k : PieceKind) (p : Player) : Bool :=
   match s with
